@@ -208,12 +208,31 @@ def cases(draw, tier):
             shp = ((batch[0] + 1,) if batch and batch[0] > 1 else (2, 3)) + (n,)
         case["mut"], case["rhs"] = kind, gen.flit(draw, cfg, shp, 1, 8)
     elif opn == "cat":
-        dim = draw(st.sampled_from([-1, -2]))
-        other = [m, n]
-        other[0 if dim == -1 else 1] += 1
-        case["mut"] = "cat_dim%d" % dim
-        case["dim"] = dim
-        case["rhs_op"] = gen.mk_dense(draw, cfg, "any", other[0], other[1], batch, 1)
+        if len(batch) >= 2 and draw(st.integers(0, 2)) > 0:
+            # concatenation along a BATCH dimension: the other batch dimensions (or a matrix dimension) differ
+            bd = draw(st.integers(0, len(batch) - 1))
+            ob = list(batch)
+            other = [m, n]
+            which = draw(st.sampled_from(["other_batch", "other_batch", "rows", "cols"]))
+            if which == "other_batch":
+                j = draw(st.sampled_from([i for i in range(len(batch)) if i != bd]))
+                # (a size torch.cat rejects; a singleton against a size > 1 would BROADCAST in a matmul, so a bogus result
+                #  can silently compute)
+                ob[j] = 1 if (batch[j] > 1 and draw(st.booleans())) else batch[j] + 1
+            else:
+                other[0 if which == "rows" else 1] += 1
+            ob[bd] = draw(st.integers(1, 2))
+            dim = bd if draw(st.booleans()) else bd - len(batch) - 2
+            case["mut"] = "cat_batchdim_" + which
+            case["dim"] = dim
+            case["rhs_op"] = gen.mk_dense(draw, cfg, "any", other[0], other[1], tuple(ob), 1)
+        else:
+            dim = draw(st.sampled_from([-1, -2]))
+            other = [m, n]
+            other[0 if dim == -1 else 1] += 1
+            case["mut"] = "cat_dim%d" % dim
+            case["dim"] = dim
+            case["rhs_op"] = gen.mk_dense(draw, cfg, "any", other[0], other[1], batch, 1)
     elif opn == "expand":
         kind = draw(st.sampled_from(["batch_not_1", "matrix_changed", "fewer_dims", "neg_new_dim", "neg_size"]))
         if kind == "batch_not_1" and batch and any(b > 1 for b in batch):
@@ -249,8 +268,8 @@ def _torch_rejects(fn):
     return False
 
 
-def _force(res):
-    """A returned object counts as a value once its shape can be read and it densifies."""
+def _force(res, probe_matmul=False):
+    """A returned object counts as a value once its shape can be read and it densifies (with probe_matmul: or multiplies)."""
     if torch.is_tensor(res):
         return "tensor", tuple(res.shape)
     if isinstance(res, tuple):
@@ -260,7 +279,15 @@ def _force(res):
         return "tuple", None
     if hasattr(res, "to_dense"):
         shp = tuple(res.shape)
-        res.to_dense()
+        try:
+            res.to_dense()
+        except Exception:
+            # the lazy object does not densify: it still counts as a returned VALUE if it silently multiplies a right-hand
+            # side that conforms to the shape it claims (an operator for an operation torch rejects that computes something)
+            if len(shp) < 2 or not probe_matmul:
+                raise
+            res.matmul(torch.ones(*shp[:-2], shp[-1], 1, dtype=res.dtype))
+            return "lazy(matmul only)", shp
         return "lazy", shp
     return type(res).__name__, None
 
@@ -373,7 +400,9 @@ def check(case):
         else:
             res = op[index]
         try:
-            kind, shp = _force(res)
+            # (under debug(False) the constructors' shape checks are documented as skipped: a lazy result that fails only
+            #  when densified is the documented consequence there; with the checks on it must not compute anything)
+            kind, shp = _force(res, probe_matmul=bool(case["debug"]))
             outcome = ("value", kind, shp)
         except Exception as e2:
             outcome = ("deferred_raise", type(e2).__name__, None)
